@@ -14,8 +14,9 @@ RUNS = {"quick": 60000, "thorough": 1500000}
 ROUNDS = {"quick": 1, "thorough": 2}
 # the formula target runs at 60-200 executions/s once its corpus holds deeply nested 4 KiB inputs (every level of
 # ComputationTree::readFormula_ copies its sub-formula; ASan on a 1 GiB stack), against 1500-40000/s for the others:
-# its thorough budget is scaled down so that a round stays well inside the 2 h watchdog (a count, not a time limit)
-RUNS_SCALE = {"thorough": {"formula": 0.25}}
+# its thorough budget is scaled down so that a round stays well inside the 2 h watchdog (a count, not a time limit);
+# the table target (edit sequences with invariant checks and assignments after every step) runs at about 450/s
+RUNS_SCALE = {"thorough": {"formula": 0.25, "table": 0.5}}
 MAX_LEN = {"formula": 1024}   # default 4096; the deterministic harness drives the 3000-level nestings
 
 
